@@ -494,7 +494,9 @@ def judge(c, hists, oracles, relevant=None):
                     if relevant is None or kind in relevant:
                         bad('corr', '%s: impl %s model %s' % (lines[bi][:50], a[:50], b[:50]), bi, found=False)
             # ---- reply class against the abstract specification
-            if 'reply' in oracles and op['op'] == 'store' and rw != pred:
+            # (the offset inside an `ok` reply is C04's business; the other properties judge the class)
+            same_reply = (rw == pred) if c.prop == 'C04' else (rw.split(' ')[0] == pred.split(' ')[0])
+            if 'reply' in oracles and op['op'] == 'store' and not same_reply:
                 ev = op['ev']
                 bad('oracle', 'store_event replied %s, the specification says %s (kind %d)' % (rw[:30], pred, ev['kind']), li)
             live, before = snap['live'], snap['before']
